@@ -18,41 +18,41 @@ bitflags! {
     #[bw(map = |&x: &Self| x.bits())]
     pub struct PitStopWorkFlags: u32 {
         /// Nothing asd
-        const NOTHING = 0;
+        const NOTHING = (1 << 0);
         /// Stop only
-        const STOP = (1 << 0);
+        const STOP = (1 << 1);
         /// Front damage
-        const FR_DAM = (1 << 1);
+        const FR_DAM = (1 << 2);
         /// FR wheel
-        const FR_WHL = (1 << 2);
+        const FR_WHL = (1 << 3);
         /// LE_FR_DAM
-        const PSE_LE_FR_DAM = (1 << 3);
+        const PSE_LE_FR_DAM = (1 << 4);
         /// LE_FR_WHL
-        const PSE_LE_FR_WHL = (1 << 4);
+        const PSE_LE_FR_WHL = (1 << 5);
         /// RI_FR_DAM
-        const PSE_RI_FR_DAM = (1 << 5);
+        const PSE_RI_FR_DAM = (1 << 6);
         /// RI_FR_WHL
-        const PSE_RI_FR_WHL = (1 << 6);
+        const PSE_RI_FR_WHL = (1 << 7);
         /// RE_DAM
-        const PSE_RE_DAM = (1 << 7);
+        const PSE_RE_DAM = (1 << 8);
         /// RE_WHL
-        const PSE_RE_WHL = (1 << 8);
+        const PSE_RE_WHL = (1 << 9);
         /// LE_RE_DAM
-        const PSE_LE_RE_DAM = (1 << 9);
+        const PSE_LE_RE_DAM = (1 << 10);
         /// LE_RE_WHL
-        const PSE_LE_RE_WHL = (1 << 10);
+        const PSE_LE_RE_WHL = (1 << 11);
         /// RI_RE_DAM
-        const PSE_RI_RE_DAM = (1 << 11);
+        const PSE_RI_RE_DAM = (1 << 12);
         /// RI_RE_WHL
-        const PSE_RI_RE_WHL = (1 << 12);
+        const PSE_RI_RE_WHL = (1 << 13);
         /// Body Minor
-        const PSE_BODY_MINOR = (1 << 13);
+        const PSE_BODY_MINOR = (1 << 14);
         /// Body Major
-        const PSE_BODY_MAJOR = (1 << 14);
+        const PSE_BODY_MAJOR = (1 << 15);
         /// Setup
-        const PSE_SETUP = (1 << 15);
+        const PSE_SETUP = (1 << 16);
         /// Refuel
-        const PSE_REFUEL = (1 << 16);
+        const PSE_REFUEL = (1 << 17);
     }
 }
 
